@@ -326,6 +326,14 @@ func ClosureBindings(anon *ssa.Function) (mk *ssa.MakeClosure, bind map[*ssa.Fre
 
 // FuncArgClosure returns the anonymous function passed (as a closure or plain func) in argument v, if statically known.
 func FuncArgClosure(v ssa.Value) *ssa.Function {
+	if f := funcArgClosure(v); f != nil {
+		return f
+	}
+	// a closure held in a local variable or built by a helper analysed as part of the caller
+	return funcArgClosure(Resolve(v))
+}
+
+func funcArgClosure(v ssa.Value) *ssa.Function {
 	switch x := Unwrap(v).(type) {
 	case *ssa.MakeClosure:
 		if f, ok := x.Fn.(*ssa.Function); ok {
